@@ -2,7 +2,7 @@
 //! runtime construction, option plumbing.
 use crate::model::*;
 use bigtools::beddata::BedParserStreamingIterator;
-use bigtools::{BBIWriteOptions, BedEntry, BigBedWrite, BigWigWrite, InputSortType, Value};
+use bigtools::{BBIDataProcessor, BBIDataSource, BBIProcessError, BBIWriteOptions, BedEntry, BigBedWrite, BigWigWrite, InputSortType, ProcessDataError, Value};
 use serde::{Deserialize, Serialize};
 use std::collections::HashMap;
 use std::io::{self, Seek, SeekFrom, Write};
@@ -304,6 +304,44 @@ fn scratch_file(text: &str) -> Result<tempfile::NamedTempFile, String> {
     Ok(f)
 }
 
+#[derive(Debug)]
+pub struct NoSourceError;
+impl std::fmt::Display for NoSourceError {
+    fn fmt(&self, f: &mut std::fmt::Formatter<'_>) -> std::fmt::Result {
+        write!(f, "never")
+    }
+}
+impl std::error::Error for NoSourceError {}
+
+/// A data source that starts every chromosome it is given, with or without values (as
+/// `bigwigmerge` does for a chromosome whose values are all filtered out).
+pub struct StartedSource<V> {
+    pub chroms: Vec<(String, Vec<V>)>,
+}
+impl<V: Clone + Send + 'static> BBIDataSource for StartedSource<V> {
+    type Value = V;
+    type Error = NoSourceError;
+    fn process_to_bbi<
+        P: BBIDataProcessor<Value = V> + Send + 'static,
+        StartProcessing: FnMut(String) -> Result<P, ProcessDataError>,
+        Advance: FnMut(P),
+    >(
+        &mut self,
+        runtime: &tokio::runtime::Runtime,
+        start_processing: &mut StartProcessing,
+        advance: &mut Advance,
+    ) -> Result<(), BBIProcessError<NoSourceError>> {
+        for (c, vals) in &self.chroms {
+            let mut p = start_processing(c.clone())?;
+            for i in 0..vals.len() {
+                runtime.block_on(p.do_process(vals[i].clone(), vals.get(i + 1)))?;
+            }
+            advance(p);
+        }
+        Ok(())
+    }
+}
+
 /// Run the real bigWig writer on the case into `sink`.  Ok(()) / Err(display of the error).
 pub fn write_wig_into(c: &WigCase, sink: Sink) -> Result<(), String> {
     let mut w = BigWigWrite::new(sink, wig_size_map(c));
@@ -335,6 +373,10 @@ pub fn write_wig_into(c: &WigCase, sink: Sink) -> Result<(), String> {
                 .map_err(|e| format!("indexer: {}", e))?
                 .ok_or_else(|| "indexer: a grouped file was reported as not grouped".to_string())?;
             go!(bigtools::beddata::BedParserParallelStreamingIterator::new(idx.clone(), ooo, path.clone(), bigtools::bed::bedparser::parse_bedgraph))
+        }
+        SrcKind::Started => {
+            let chroms: Vec<(String, Vec<Value>)> = c.chroms.iter().map(|ch| (ch.name.clone(), ch.items.iter().map(|it| Value { start: it.s, end: it.e, value: it.v() }).collect())).collect();
+            go!(StartedSource { chroms: chroms.clone() })
         }
     }
 }
@@ -418,6 +460,10 @@ pub fn write_bed_into(c: &BedCase, sink: Sink) -> Result<(), String> {
                 .map_err(|e| format!("indexer: {}", e))?
                 .ok_or_else(|| "indexer: a grouped file was reported as not grouped".to_string())?;
             go!(bigtools::beddata::BedParserParallelStreamingIterator::new(idx.clone(), ooo, path.clone(), bigtools::bed::bedparser::parse_bed))
+        }
+        SrcKind::Started => {
+            let chroms: Vec<(String, Vec<BedEntry>)> = c.chroms.iter().map(|ch| (ch.name.clone(), ch.items.iter().map(|it| BedEntry { start: it.s, end: it.e, rest: it.rest.clone() }).collect())).collect();
+            go!(StartedSource { chroms: chroms.clone() })
         }
     }
 }
